@@ -282,6 +282,9 @@ def check(prog, rep):
     rep.guarded(rule_water_completion, prog, rep)
     rep.guarded(rule_carboxyl_names, prog, rep)
     from . import shared
+    rep.guarded(shared.rule_no_runtime_module_state, prog, rep, "R12", "the template queries (bonds, nearest bonded atoms, reference coordinates) keep no table of earlier answers",
+                ["definitions.py"], "a patched copy of a residue (terminus, protonation state) shares its name with the unpatched one, so an answer remembered "
+                "under the name hands one variant the frame atoms of the other and the atom is fitted on the wrong neighbours", 1)
     rep.guarded(shared.rule_decoration_columns_unused, prog, rep, "R11", "atoms are built from names, bonds and coordinates only: occupancy and temperature factor never choose a frame atom or a position",
                 ("create_atom",), (), 1, "the construction of added atoms")
 
